@@ -30,6 +30,8 @@ def plan(tier, seed):
         cases.append({"kind": "threads", "threads": 16, "n": 2500 if not big else 5000, "i": i})
     cases.append({"kind": "separator"})
     cases.append({"kind": "config_sep"})
+    for i in range(4 if not big else 20):
+        cases.append({"kind": "replace_stream", "seed": seed, "i": i})
     for i in range(6 if not big else 30):
         cases.append({"kind": "roundtrip", "seed": seed, "i": i})
     return cases
@@ -162,9 +164,57 @@ def run(case):
         out.d("separator")
     elif kind == "config_sep":
         _config_sep(out)
+    elif kind == "replace_stream":
+        _replace_stream(case, out)
     elif kind == "roundtrip":
         _roundtrip(case, out)
     return out.result(sample={"case": case} if case.get("i", 0) == 0 else None)
+
+
+def _replace_stream(case, out):
+    """A replaced bet keeps the customer reference of the bet it replaces.  When the order stream reports the new bet before the
+    replaceOrders response has created the local replacement, that update belongs to no local order yet: it must not be attributed to
+    the original order (whose own bet is the cancelled one)."""
+    from .. import livecases
+
+    rng = simgen.mk_rng(case["seed"], case["i"], 191)
+    st = livecases.make_strategy("R%d" % case["i"])
+    tr, w = livecases.new_world([st])
+    try:
+        mid = w.add_market_file(livecases.static_market())
+        w.next_book(mid)
+        m = w.market(mid)
+        ex = w.exchange
+        for j in range(rng.randint(2, 5)):
+            o = livecases.make_order(st, mid, sel=rng.choice((701, 702, 703)), side=rng.choice(("BACK", "LAY")), price=3.0, size=4.0, persistence="PERSIST")
+            m.place_order(o)
+            w.executor.run_all()
+            w.snapshot()
+            own_bet = str(o.bet_id)
+            m.replace_order(o, new_price=3.5)
+            if rng.random() < 0.7 and w.executor.queue:
+                w.exchange_process(0)  # the exchange acts on the replace now; the response is still on its way
+                new_bet = [b for b in ex.bets.values() if b["customerOrderRef"] == o.customer_order_ref and b["betId"] != own_bet]
+                if new_bet and rng.random() < 0.5:
+                    ex.fill(new_bet[0]["betId"], 1.0)
+                w.snapshot()
+                out.rule("roundtrip")
+                cur = o.responses.current_order
+                if cur is not None and str(cur.bet_id) != own_bet:
+                    out.v("update-of-replacement-bet-attributed-to-replaced-order", {}, order_bet=own_bet, attributed_bet=str(cur.bet_id), ref=o.customer_order_ref)
+                if abs((o.size_matched or 0.0)) > 1e-9:
+                    out.v("update-of-replacement-bet-attributed-to-replaced-order", {"field": "size_matched"}, order_bet=own_bet, size_matched=o.size_matched)
+            w.executor.run_all()
+            w.snapshot()
+            out.rule("roundtrip")
+            rep = [x for x in o.trade.orders if x is not o]
+            for x in rep:
+                b = ex.bets.get(str(x.bet_id))
+                if b is None or b["customerOrderRef"] != o.customer_order_ref or m.blotter.get_order_bet_id(x.bet_id) is not x:
+                    out.v("reference-attributed-to-wrong-order-or-strategy", {"replaced": True}, ref=o.customer_order_ref)
+        out.d("replace_stream:%d" % case["i"])
+    finally:
+        livecases.finish(w)
 
 
 def _config_sep(out):
